@@ -58,6 +58,7 @@ func init() {
 			cfgTag(c, cfg, func() {
 				EFXValueSemantics(c, cfg, an)
 				EFXAlias(c, cfg, an)
+				EFXPolicy(c, cfg, an)
 			})
 			c.R.Extra["efx_stats_"+cfg] = an.Stats
 			if cfg != "default" {
@@ -80,6 +81,7 @@ func init() {
 				EFXReadOnlyTypes(c, cfg, an)
 				EFXReadOnlyTargets(c, cfg, an)
 				EFXGlobals(c, cfg, an)
+				EFXPolicy(c, cfg, an)
 			})
 			c.R.Extra["efx_stats_"+cfg] = an.Stats
 			if cfg != "default" {
